@@ -69,4 +69,9 @@ def is_known(qual):
     segs = [x for x in _clean(q).split("::") if x]
     if len(segs) >= 2 and "::".join(segs[-2:]) in _PATHS:
         return True
-    return last in _EXACT
+    # a bare name only counts together with an owner the rules also mention (`ElfBytes` + `symbol_table`): a helper that merely
+    # happens to be called `bytes` or `new` on a new private type is not part of the vocabulary
+    if last in _EXACT and len(segs) >= 2:
+        owner = segs[-2]
+        return owner in _EXACT or any(p.startswith(owner + "::") or ("::" + owner + "::") in ("::" + p) for p in _PATHS)
+    return False
